@@ -100,6 +100,10 @@ Definition prop_xwrap (input obs : val) : val :=
   then fail "wrap-payload-not-verbatim"
   else if negb (file_eqb (file_of_v (vnth 1 obs)) (Some x))
   then fail "wrap-source-modified"
+  (* whatever x and whatever was at the destination path before: after the payload comes exactly
+     one serialized index and nothing else (os.Create truncated the previous file) *)
+  else if ok && negb (match idx_read (drop (51 + blen x) out) with Ok (_, []) => true | _ => false end)
+  then fail "wrap-destination-not-exactly-pragma-header-payload-index"
   else if is_tag (vnth 0 expect) "valid" then
     let roots := vcids (vnth 1 expect) in
     let blocks := vblocks (vnth 2 expect) in
@@ -250,3 +254,27 @@ Definition prop_xreplace (input obs : val) : val :=
           end in
         if find (S (length a)) a b then VT "ok" else fail "replace-touched-bytes-outside-header"
     end.
+
+(* ---- xwrapmany: (opts, n, seed, idEvery) -------------------------------------------------------
+   a CARv1 of n distinct blocks (every idEvery-th with an identity CID) through WrapV1, judged by
+   layer B only: obs = (error, sections, sections that must be indexed, how many of those the
+   appended index resolves to their offset, records in the index, payload verbatim & nothing after
+   the index).  The expected observation follows from the parameters alone. *)
+Definition many_indexed (o : xopts) (n idevery : N) : N :=
+  if x_storeid o || (idevery =? 0) then n else n - n / idevery.
+
+Definition run_xwrapmany (input : val) : val :=
+  let o := v_xopts (vnth 0 input) in
+  let n := vN (vnth 1 input) in
+  let k := many_indexed o n (vN (vnth 3 input)) in
+  VL [VT "nil"; VN n; VN k; VN k; VN k; VN 1].
+
+Definition prop_xwrapmany (input obs : val) : val :=
+  let o := v_xopts (vnth 0 input) in
+  let k := many_indexed o (vN (vnth 1 input)) (vN (vnth 3 input)) in
+  if negb (is_tag (vnth 0 obs) "nil") then fail "wrap-of-valid-carv1-failed"
+  else if negb (vbool (vnth 5 obs)) then fail "wrap-payload-not-verbatim"
+  else if negb (vN (vnth 2 obs) =? k) then fail "harness-expectation-mismatch"
+  else if negb (vN (vnth 3 obs) =? k) then fail "wrap-index-does-not-resolve-sections"
+  else if negb (vN (vnth 4 obs) =? k) then fail "wrap-index-wrong"
+  else VT "ok".
